@@ -75,15 +75,18 @@ func genRefPlan(r *rand.Rand, n int, maxPayload int, le bool) []refSegPlan {
 
 // c09TCPClient: reference client against the real server.
 func c09TCPClient(c *Ctx, r *rand.Rand, res *Result) (sig, detail string) {
-	env, err := NewEnv(EnvCfg{PatS: genPattern(r, r.Intn(2) == 0), Users: []UserSpec{{"alice", "alice-secret"}, {"bob", "bob-secret"}}})
+	env, err := NewEnv(EnvCfg{PatS: genPattern(r, r.Intn(2) == 0), Users: usersABL})
 	if err != nil {
 		return "", "env: " + err.Error()
 	}
 	defer env.Close()
-	ui := r.Intn(2)
+	ui := r.Intn(len(usersABL))
 	u := env.Cfg.Users[ui]
 	cred := refcodec.NewCred(u.Name, u.Password)
-	now := time.Now().Unix()
+	// an implementation on another host: its clock is within a minute of the server's
+	skew := int64(pick(r, 0, 0, 30, -30, 59, -59, 60, -60))
+	res.Params["peer_clock_skew_s"] = skew
+	now := time.Now().Unix() + skew
 	tc := refcodec.NewTCPClient(cred, now, u.Name)
 	sid := 1 + r.Uint32()>>1
 	key := key2(c.Seed, c.Idx, 0, 0, 9)
@@ -193,7 +196,7 @@ func c09TCPClient(c *Ctx, r *rand.Rand, res *Result) (sig, detail string) {
 // c09TCPServer: reference server against the real client.
 func c09TCPServer(c *Ctx, r *rand.Rand, res *Result) (sig, detail string) {
 	n := simnet.New()
-	users := []UserSpec{{"alice", "alice-secret"}}
+	users := []UserSpec{usersABL[r.Intn(len(usersABL))]}
 	cfg := EnvCfg{Users: users, PatC: genPattern(r, r.Intn(2) == 0)}
 	cfg.defaults()
 	// a bare env: no real server, only the client mux on the same network
@@ -344,12 +347,16 @@ func c09TCPServer(c *Ctx, r *rand.Rand, res *Result) (sig, detail string) {
 // c09UDPClient: minimal reference UDP client (cumulative acks, stop-and-wait) against the real server.
 func c09UDPClient(c *Ctx, r *rand.Rand, res *Result) (sig, detail string) {
 	mtuS := pick(r, mtuSet...)
-	env, err := NewEnv(EnvCfg{UDP: true, MTUS: mtuS, PatS: genPattern(r, r.Intn(2) == 0), Users: []UserSpec{{"alice", "alice-secret"}, {"bob", "bob-secret"}}})
+	env, err := NewEnv(EnvCfg{UDP: true, MTUS: mtuS, PatS: genPattern(r, r.Intn(2) == 0), Users: usersABL})
 	if err != nil {
 		return "", "env: " + err.Error()
 	}
 	defer env.Close()
-	u := env.Cfg.Users[r.Intn(2)]
+	u := env.Cfg.Users[r.Intn(len(usersABL))]
+	// an implementation on another host: its clock is within a minute of the server's
+	skew := int64(pick(r, 0, 0, 30, -30, 59, -59, 60, -60))
+	res.Params["peer_clock_skew_s"] = skew
+	clk := func() int64 { return time.Now().Unix() + skew }
 	cred := refcodec.NewCred(u.Name, u.Password)
 	pc := env.Net.OpenPacket("10.0.6.6", 0)
 	defer pc.Close()
@@ -357,7 +364,7 @@ func c09UDPClient(c *Ctx, r *rand.Rand, res *Result) (sig, detail string) {
 	key := key2(c.Seed, c.Idx, 2, 0, 9)
 	keyR := key2(c.Seed, c.Idx, 2, 1, 9)
 	le := r.Intn(2) == 0
-	k := refcodec.KeyAt(cred.Hashed, time.Now().Unix())
+	k := refcodec.KeyAt(cred.Hashed, clk())
 	srv := env.Cfg.serverAddr()
 	var sent int64
 	mk := func(n int) []byte {
@@ -377,7 +384,7 @@ func c09UDPClient(c *Ctx, r *rand.Rand, res *Result) (sig, detail string) {
 			if err != nil {
 				return
 			}
-			seg, derr := refcodec.DecodeDatagram(append([]byte(nil), b[:n]...), refcodec.Keys3(cred.Hashed, time.Now().Unix()))
+			seg, derr := refcodec.DecodeDatagram(append([]byte(nil), b[:n]...), refcodec.Keys3(cred.Hashed, clk()))
 			if derr != nil {
 				rxCh <- &refcodec.Segment{Meta: refcodec.Meta{Type: 255}, Wire: []byte(derr.Error())}
 				continue
@@ -388,7 +395,7 @@ func c09UDPClient(c *Ctx, r *rand.Rand, res *Result) (sig, detail string) {
 	var peerData = map[uint32][]byte{}
 	peerNext := uint32(0) // contiguous server seq received
 	sendAck := func() {
-		m := refcodec.Meta{Type: refcodec.AckC2S, Timestamp: refcodec.Minute(time.Now().Unix()), SessionID: sid, Seq: 0, UnAck: peerNext, Window: 4096}
+		m := refcodec.Meta{Type: refcodec.AckC2S, Timestamp: refcodec.Minute(clk()), SessionID: sid, Seq: 0, UnAck: peerNext, Window: 4096}
 		pc.WriteTo(refcodec.EncodeDatagram(k, refcodec.RandNonce(u.Name), m, nil, refcodec.BuildOpts{Pad2: refcodec.RandBytes(r.Intn(30))}), srv)
 	}
 	var closed bool
@@ -417,7 +424,7 @@ func c09UDPClient(c *Ctx, r *rand.Rand, res *Result) (sig, detail string) {
 	// reliable send: retransmit until the cumulative ack passes seq
 	sendReliable := func(m refcodec.Meta, payload []byte, o refcodec.BuildOpts) (string, string) {
 		for try := 0; try < 12; try++ {
-			m.Timestamp = refcodec.Minute(time.Now().Unix())
+			m.Timestamp = refcodec.Minute(clk())
 			m.UnAck = peerNext
 			pc.WriteTo(refcodec.EncodeDatagram(k, refcodec.RandNonce(u.Name), m, payload, o), srv)
 			res.Obs["ref_segments_sent"]++
